@@ -51,6 +51,11 @@ def scenarios(quick):
     add('athlon', [(a1, a2), (a1, a1), (a1, p2), (p1, p2), (a3, a2), (p1, a1), (a3, a4), (a4, a3), (a3, a3)] if not quick else
         [(a1, a2), (a1, p2), (p1, p2), (a3, a2), (a3, a4)])
     add('athlon', [(p1, p1b), (a3, a3b)], variants=('warm',) if quick else ('cold', 'warm'))
+    # the one row with an option of its own (ESAA boys' 800 m): a call with the option against calls without it on the same row
+    e1, e2, e3 = C('athlon_score', 'M', '800', 120.0, esaa=True), C('athlon_score', 'M', '800', 130.0), C('athlon_performance_needed', 'M', '800', 700)
+    add('athlon', [(e1, e2), (e1, e3)], variants=('warm',) if quick else ('cold', 'warm'))
+    if not quick:
+        add('athlon', [(e1, e1), (e2, e1)])
     # scorers without module-level mutable state today: different-argument pairs, so that a memo added later is seen
     t1, t2 = C('tyrving_score', 'M', 15, '100', '12.10'), C('tyrving_score', 'F', 14, 'HJ', 1.5)
     q1, q2 = C('qkids_score', 'QKSEC', '100', '13.5'), C('qkids_score', 'QKWL', 'LJ', 3.2)
